@@ -255,7 +255,8 @@ func (g *progGen) leaf() string {
 	case 2:
 		return "increase(" + g.selector("c_total") + "[3m])"
 	case 3:
-		return fmt.Sprintf(`label_replace(%s, %q, "$1", %q, "(.*)")`, g.selector(""), []string{"d", "a", "b"}[g.x.Draw("lr-dst", 3)], []string{"a", "b", "c"}[g.x.Draw("lr-src", 3)])
+		rr := [][2]string{{"$1", "(.*)"}, {"$1", "(.).*"}, {"k", ".*"}}[g.x.Draw("lr-rewrite", 3)]
+		return fmt.Sprintf(`label_replace(%s, %q, %q, %q, %q)`, g.selector(""), []string{"d", "a", "b"}[g.x.Draw("lr-dst", 3)], rr[0], []string{"a", "b", "c"}[g.x.Draw("lr-src", 3)], rr[1])
 	case 4:
 		return fmt.Sprintf(`label_join(%s, %q, "-", "a", "b")`, g.selector(""), []string{"d", "a", "c"}[g.x.Draw("lj-dst", 3)])
 	case 5:
@@ -360,7 +361,8 @@ func (g *progGen) vector(depth int) string {
 			"sum by (le, a, b) (rate(h_bucket[2m]))",
 		}[g.x.Draw("hq", 5)])
 	case 6:
-		return fmt.Sprintf(`label_replace(%s, %q, "$1", %q, "(.*)")`, g.vector(depth-1), []string{"d", "a", "b"}[g.x.Draw("lr-dst", 3)], []string{"a", "b", "c"}[g.x.Draw("lr-src", 3)])
+		rr := [][2]string{{"$1", "(.*)"}, {"$1", "(.).*"}, {"k", ".*"}}[g.x.Draw("lr-rewrite", 3)]
+		return fmt.Sprintf(`label_replace(%s, %q, %q, %q, %q)`, g.vector(depth-1), []string{"d", "a", "b"}[g.x.Draw("lr-dst", 3)], rr[0], []string{"a", "b", "c"}[g.x.Draw("lr-src", 3)], rr[1])
 	case 7:
 		return fmt.Sprintf(`label_join(%s, %q, "-", "a", "b")`, g.vector(depth-1), []string{"d", "a", "c"}[g.x.Draw("lj-dst", 3)])
 	}
